@@ -29,6 +29,15 @@ def obligations():
         Obl("C17.zero_vectors", "py", H, "zero_vectors_mean_no_cell", [TJ + "unitcell_vectors (setter)"], "arbitrary 3x3 symbolic vectors",
             "lengths and angles are both set or both None; None iff all entries are (numerically) zero; None clears", 120),
     ]
+    TJ2 = "mdtraj.core.trajectory.Trajectory."
+    o += [
+        Obl("C17.ops.cell_presence", "xh", "harness.c03", "cell_presence_ops", [TJ2 + "slice", TJ2 + "join", TJ2 + "atom_slice", TJ2 + "stack", TJ2 + "_have_unitcell", TJ2 + "unitcell_volumes"],
+            "n<=3 frames; op in {t[a:], t[::-1], join, atom_slice, stack}; with/without cell", "the result has a complete per-frame cell exactly when the input had one; volumes and vectors then have one entry per frame", 300),
+        Obl("C17.ops.stack_cells", "xh", "harness.c03", "stack_cell_presence", [TJ2 + "stack"], "left/right operand with/without cell (4 combinations), n<=3",
+            "stack never produces half a cell: lengths AND angles are the left operand's, or both absent", 120),
+        Obl("C17.ops.stack_values", "xh", "harness.c03", "stack_two", [TJ2 + "stack"], "operands with DIFFERENT cells", "lengths and angles of the stacked trajectory both come from the same (left) operand", 300),
+        Obl("C17.ops.join_values", "xh", "harness.c03", "join_two", [TJ2 + "join"], "operands with different cells", "joined cells are the concatenation, lengths and angles alike", 400),
+    ]
     for r in range(6):
         o.append(Obl(f"C17.roundtrip.rot{r}", "py", H, "roundtrip", [TJ + "unitcell_vectors (setter)", U + "box_vectors_to_lengths_and_angles", U + "lengths_and_angles_to_box_vectors", TJ + "unitcell_lengths", TJ + "unitcell_angles"],
                      f"rotation #{r} of the catalogue applied to the standard description of a symbolic cell",
